@@ -185,8 +185,10 @@ class Module:
         from . import refdist
         self.stmts_before_unextraction = refdist.statements(self.tree)
         self.alpha_unextracted = alpha.inline_new_helpers(self.tree, name)
+        self.alpha_tables = alpha.inline_new_tables(self.tree, name)
         self.alpha_inlined = alpha.inline_new_temps(self.tree, name)
         self.alpha_reordered = alpha.restore_operand_order(self.tree, name)
+        self.alpha_call_shapes = alpha.restore_call_shapes(self.tree, name)
         self.alpha_attr_renames = alpha.normalise_attrs(self.tree, name)
         self.bindings = {}  # name -> ('import', dotted) | ('func', F) | ('class', C) | ('assign', node)
         self.functions = {}
